@@ -37,3 +37,15 @@ Definition hash_model (keys vals : list Z) (scalar : option Z) (m : option Z) (o
   rmap (fun t => hrun t ops) (match scalar with Some v => mk_scalar Z keys v m' | None => mk Z keys vals m' end).
 Definition hash_spec (keys vals : list Z) (scalar : option Z) (ops : list hop) : list hout :=
   srun (match scalar with Some v => map (fun k => (k, v)) keys | None => combine keys vals end) ops.
+
+(* two tables compared with == : the code's answer (Hash.tbl_eq) and the answer on the dictionaries *)
+Definition opt_eqb (a b : option Z) : bool := match a, b with Some x, Some y => x =? y | None, None => true | _, _ => false end.
+Definition dict_eqb (d1 d2 : assoc Z) : bool := forallb (fun k => opt_eqb (aget Z d1 k) (aget Z d2 k)) (map fst d1 ++ map fst d2).
+Definition hash_eq (k1 v1 : list Z) (s1 m1 : option Z) (k2 v2 : list Z) (s2 m2 : option Z) : option (bool * bool) :=
+  let md (m : option Z) (k : list Z) := match m with Some x => x | None => default_mod (zlen k) end in
+  let tb k v s m := match s with Some c => mk_scalar Z k c (md m k) | None => mk Z k v (md m k) end in
+  let dc (k v : list Z) (s : option Z) := match s with Some c => map (fun x => (x, c)) k | None => combine k v end in
+  match tb k1 v1 s1 m1, tb k2 v2 s2 m2 with
+  | Ok t1, Ok t2 => Some (tbl_eq Z Z.eqb 0 t1 t2, dict_eqb (dc k1 v1 s1) (dc k2 v2 s2))
+  | _, _ => None
+  end.
